@@ -8,14 +8,15 @@ Import ListNotations.
 Section P.
   Variable V : Type.
   Variable bin : binop -> V -> V -> V.
+  Variable un : unop -> V -> V.
   Variable bin_ok : binop -> V -> V -> bool.
   Variable ltb leb : V -> V -> bool.
   Variable of_bool : bool -> V.
-  Notation gate := (gate V bin bin_ok ltb leb of_bool).
-  Notation holds := (holds V bin bin_ok ltb leb of_bool).
-  Notation operand := (operand V bin bin_ok).
+  Notation gate := (gate V bin un bin_ok ltb leb of_bool).
+  Notation holds := (holds V bin un bin_ok ltb leb of_bool).
+  Notation operand := (operand V bin un bin_ok).
   Notation within := (within V leb).
-  Notation all_hold := (all_hold V bin bin_ok ltb leb of_bool).
+  Notation all_hold := (all_hold V bin un bin_ok ltb leb of_bool).
   Notation cmp_nodes := (cmp_nodes V ltb leb).
   Notation cmp_consts := (cmp_consts V ltb leb).
   Notation chain := (chain V ltb leb).
@@ -152,7 +153,7 @@ Section P.
     destruct (cmp_nodes op p c) as [s|] eqn:Hs; [|discriminate H]. inversion H; subst t e'. split; [|reflexivity].
     assert (L : is_lit s = false).
     { unfold Model.cmp_nodes in Hs. rewrite A in Hs.
-      destruct p as [| | | | |]; destruct c as [| | | | |]; simpl in A; try discriminate A; inversion Hs; destruct op; reflexivity. }
+      destruct p as [| | | | | |]; destruct c as [| | | | | |]; simpl in A; try discriminate A; inversion Hs; destruct op; reflexivity. }
     rewrite (holds_and args first s L). rewrite (cmp_nodes_spec args op p c s A Hs). tauto.
   Qed.
 
@@ -229,12 +230,12 @@ Section P.
   Lemma gate_ok_iff (lims : list (limit V)) (asserts : list (assertion V)) (n : node V) (vec : list V) (i : ival V) :
     gate false lims asserts n vec = VOk i <->
     List.length vec = prior_count V n /\ within lims (vec_args n vec) = true /\
-    all_hold (vec_args n vec) asserts = true /\ i = inst V bin (vec_args n vec) n.
+    all_hold (vec_args n vec) asserts = true /\ i = inst V bin un (vec_args n vec) n.
   Proof.
     unfold Model.gate, vec_args.
     destruct (Nat.eqb_spec (List.length vec) (prior_count V n)) as [L|L]; simpl.
     - destruct (Model.within V leb lims _) eqn:W; simpl.
-      + destruct (Model.all_hold V bin bin_ok ltb leb of_bool _ asserts) eqn:A; simpl.
+      + destruct (Model.all_hold V bin un bin_ok ltb leb of_bool _ asserts) eqn:A; simpl.
         * split; [intro H; inversion H; subst; auto|intros [_ [_ [_ ->]]]; reflexivity].
         * split; [discriminate|intros [_ [_ [H _]]]; discriminate].
       + split; [discriminate|intros [_ [H _]]; discriminate].
@@ -254,7 +255,7 @@ Section P.
 
   Lemma gate_ignore_total (lims : list (limit V)) (asserts : list (assertion V)) (n : node V) (vec : list V) :
     List.length vec = prior_count V n ->
-    gate true lims asserts n vec = VOk (inst V bin (vec_args n vec) n).
+    gate true lims asserts n vec = VOk (inst V bin un (vec_args n vec) n).
   Proof. intro L. unfold Model.gate, vec_args. rewrite (proj2 (Nat.eqb_eq _ _) L). reflexivity. Qed.
 
   Lemma all_hold_app (args : nat -> option V) (a b : list (assertion V)) :
